@@ -205,6 +205,7 @@ Inductive oev :=
 Definition oev_of (e : ev) : list oev :=
   match e with
   | EvSubCb c _ => [OSubCb c] | EvCommit _ _ _ _ => [] | EvJoinSkipped _ _ _ => []
+  | EvDelete _ _ => [] | EvUnsubSkipped _ _ => []
   | EvJoin _ c _ => [OJoin c] | EvLeave c _ => [OLeave c] | EvUnsubCb c _ => [OUnsubCb c]
   | EvConnectCb => [OConnectCb] | EvDisconnectCb => [ODisconnectCb] | EvAliveCb => [OAliveCb]
   end.
